@@ -66,7 +66,7 @@ def generate(seed, tier):
     fields = []
     for index in range(swarm.randint(1, 4)):
         fields.append({"name": "f%d" % index, "type": swarm.choice(["RecA", "RecB"]), "empty": swarm.random() < 0.4,
-                       "width": swarm.choice([3, 4]), "length": swarm.choice(["", "1:3", "2:4"])})
+                       "width": swarm.choice([3, 4]), "length": swarm.choice(["", "1:3", "2:4", "1:1, 4:5", "1:2, 5:6"])})
     checks = []
     for index in range(swarm.choice([0, 1, 1, 2, 3])):
         behaviour = swarm.choice(["", "", "veto=x", "veto=y", "end=fail", "veto=x;end=fail"])
@@ -76,7 +76,7 @@ def generate(seed, tier):
     spec = {"format": fmt, "header": swarm.choice([0, 0, 1, 2]), "fields": fields, "checks": checks,
             "allowed": swarm.choice([None, None, [32, 126], [32, 126], [33, 126]]),
             "allowed_declared_late": swarm.random() < 0.3}
-    pool = ["ab", "ab", "xa", "ya", "b", "", "a!", "aü", "abcde", " a", "xy"]
+    pool = ["ab", "ab", "xa", "ya", "b", "", "a!", "aü", "abcde", " a", "xy", "abc", "abcd"]
     if fmt == "delimited":
         pool.append("a\nb")  # a line break inside a cell
     if fmt == "fixed":
@@ -102,7 +102,8 @@ def generate(seed, tier):
             runs.append({"kind": "read", "data": data, "api": api, "mode": "raise" if api == "validate" else mode,
                          "limit": rng.choice([None, None, 0, 1, 2, size, size + 1]),
                          "stop_after": rng.choice([None, None, None, 0, 1, 2]) if api != "validate" else None,
-                         "close_twice": rng.random() < 0.3, "create": rng.choice(["late", "late", "early"])})
+                         "close_twice": rng.random() < 0.3, "create": rng.choice(["late", "late", "early"]),
+                         "never_close": rng.random() < 0.15})
         else:
             runs.append({"kind": "write", "data": data, "close_twice": rng.random() < 0.3})
     if swarm.random() < 0.15:
@@ -154,8 +155,9 @@ class RefProtocol(object):
         if self.fixed:
             length_ok = len(cell) <= field["width"]
         elif field.get("length"):
-            low, high = [int(part) for part in field["length"].split(":")]
-            length_ok = low <= len(cell) <= high
+            # one or more parts "low:high", separated by commas
+            parts = [[int(limit) for limit in part.split(":")] for part in field["length"].split(",")]
+            length_ok = any(low <= len(cell) <= high for low, high in parts)
         else:
             length_ok = True
         if not length_ok:
@@ -397,8 +399,21 @@ def execute(scenario):
                     stopped_early = not reader.finished
                     if stopped_early:
                         probes.append("run-stopped-early")
-                    reader.close()
-                    if run.get("close_twice"):
+                    never_close = bool(run.get("never_close")) and run["api"] == "Reader"
+                    if never_close:
+                        # the Reader is never closed: it just goes out of scope, and the garbage collector runs.
+                        # Going out of scope is not closing: no hook may be called for it.
+                        outcome_of_unclosed = reader.outcome(with_message=False)
+                        early.pop(run_index, None)
+                        reader.generator = None
+                        reader.reader = None
+                        import gc
+
+                        gc.collect()
+                        probes.append("reader-never-closed-and-garbage-collected")
+                    else:
+                        reader.close()
+                    if run.get("close_twice") and not never_close:
                         reader.close()
                         probes.append("close-twice")
                     # ---- prediction -----------------------------------------------------------
@@ -406,7 +421,8 @@ def execute(scenario):
                     if run["api"] == "validate" and limit == 0:
                         started = False
                     produced = 0  # items the generator has handed out so far
-                    if started or run["api"] != "rows":
+                    if started or (run["api"] != "rows" and not never_close):
+                        # (a validator that never validated a row resets the checks when it is closed)
                         predicted.extend(model.resets())
                     if started:
                         wanted_items = None if stop_after is None else stop_after
@@ -431,11 +447,11 @@ def execute(scenario):
                             if not accepted and run["mode"] == "raise":
                                 break
                     closes = started or run["api"] != "rows"  # an unstarted cutplace.rows() generator owns no reader yet
-                    if closes:
+                    if closes and not never_close:
                         asked, cleanup = model.end_events(probes)
                         predicted.extend(asked)
                         predicted.extend(cleanup)
-                    outcome = reader.outcome(with_message=False)
+                    outcome = outcome_of_unclosed if never_close else reader.outcome(with_message=False)
                 else:
                     probes.append("writer-run")
                     writer = lib.WriteRun(cid, fs, "out%d.txt" % run_index)
